@@ -97,10 +97,11 @@ MonStep(m, a, o) ==
        tags |-> m.tags \cup (IF zero /\ exp2 THEN {"closed_channel_zero_value"} ELSE {}) ]
 
 ------------------------------------------------------------------------------
-(* Actions.  Every action yields (q', recs).  Hints: w = records expected now.  *)
+(* Actions.  Every action yields (q', recs).  Hints: w = records expected now,  *)
+(* pc = where the loop is expected to be afterwards (the harness waits for it). *)
 Fin(q2, recs, a) ==
   /\ Q' = q2 /\ obs' = ObsR(recs)
-  /\ last' = a @@ [w |-> Len(recs)]
+  /\ last' = a @@ [w |-> Len(recs), pc |-> q2.pc]
   /\ M' = MonStep(M, a, obs')
   /\ steps' = steps + 1
 
@@ -123,12 +124,15 @@ Step ==
   /\ IF Ready(Q) = {} THEN Fin([Q EXCEPT !.pc = "sel"], <<>>, [a |-> "step"])
      ELSE \E r \in Ready(Q) : Fin(Iter(Q, r), Out(Q, r), [a |-> "step"])
 
-\* the deadline passes: the loop's timer fires, then the QueryResponse is closed.  A loop blocked in the
-\* select is woken by its timer (the only ready case at that instant).
+\* the deadline passes: the loop's own timer (time.After(time.Until(deadline))) fires and serf's timer
+\* (AfterFunc(timeout), started a few instructions after the deadline was computed) closes the
+\* QueryResponse.  The two are microseconds apart and come in EITHER order (observed on the real code),
+\* so a loop blocked in the select is woken by its timer or by a closed channel: any case ready afterwards.
+\* (Not while the client is stalled: the case taken would stay hidden.)
 Expire ==
-  /\ Guard /\ Q.pc # "none" /\ ~Q.fired
+  /\ Guard /\ Q.pc # "none" /\ ~Q.fired /\ ~(Q.pc = "sel" /\ Q.stalled)
   /\ LET q1 == [Q EXCEPT !.fired = TRUE, !.closed = TRUE] IN
-     IF Q.pc = "sel" THEN Fin(Iter(q1, DoneRec), Out(q1, DoneRec), [a |-> "expire"])
+     IF Q.pc = "sel" THEN \E r \in Ready(q1) : Fin(Iter(q1, r), Out(q1, r), [a |-> "expire"])
      ELSE Fin(q1, <<>>, [a |-> "expire"])
 
 Stall   == Guard /\ Q.pc \in {"gate", "sel"} /\ ~Q.stalled /\ Fin([Q EXCEPT !.stalled = TRUE], <<>>, [a |-> "stall"])
@@ -144,10 +148,10 @@ UnstallQ(q) ==
   THEN <<[q EXCEPT !.stalled = FALSE, !.pend = <<>>,
                    !.pc = IF q.pc = "send" THEN (IF q.pend[1].k = "done" THEN "end" ELSE "gate") ELSE @], q.pend>>
   ELSE <<q, <<>>>>
+\* after the deadline a loop that was blocked in the select simply runs on (see Expire)
 ExpireQ(q) ==
-  IF q.fired THEN <<q, <<>>>>
-  ELSE LET q1 == [q EXCEPT !.fired = TRUE, !.closed = TRUE] IN
-       IF q.pc = "sel" THEN <<[q1 EXCEPT !.pc = "end"], <<DoneRec>>>> ELSE <<q1, <<>>>>
+  IF q.fired THEN q
+  ELSE [q EXCEPT !.fired = TRUE, !.closed = TRUE, !.pc = IF @ = "sel" THEN "gate" ELSE @]
 IsBogus(r) == r.k # "done" /\ r.n = 0
 RECURSIVE Runs(_, _)
 Runs(q, n) ==   \* <<final q, records>> of the complete runs with at most n zero-value iterations
@@ -158,7 +162,7 @@ Runs(q, n) ==   \* <<final q, records>> of the complete runs with at most n zero
 End ==
   /\ Guard /\ Q.pc # "none"
   /\ LET u == UnstallQ(Q)  e == ExpireQ(u[1]) IN
-     \E x \in Runs(e[1], 2) : Fin(x[1], u[2] \o e[2] \o x[2], [a |-> "end"])
+     \E x \in Runs(e, 2) : Fin(x[1], u[2] \o x[2], [a |-> "end"])
 
 Init == Q = NewQ /\ M = NewM /\ obs = NoObs /\ last = [a |-> "init"] /\ steps = 0
 Next == \/ \E b \in BOOLEAN : Query(b)
